@@ -6,7 +6,7 @@ import json, os, re, shutil, subprocess, sys, tempfile, time
 
 VERIF = os.path.dirname(os.path.dirname(os.path.abspath(__file__)))
 SEEDED = os.path.join(VERIF, "seeded")
-EXTRA = {"C07-2": ["C06"], "C14-1": ["C10"], "C10-2": ["C03"], "C19-2": ["C06"], "C04-2": ["C09"], "C03-2": ["C15"], "C02-2": ["C15"], "C20-1": ["C15"]}
+EXTRA = {"C14-3": ["C07"], "C10-4": ["C07"], "C07-2": ["C06"], "C14-1": ["C10"], "C10-2": ["C03"], "C19-2": ["C06"], "C04-2": ["C09"], "C03-2": ["C15"], "C02-2": ["C15"], "C20-1": ["C15"]}
 
 
 def run_check(patch, prop):
